@@ -121,6 +121,10 @@ def routes_panic(ctx):
     return printer_slice(ctx, "panic", module="MCRoutes", cfg="Routes.cfg")
 
 
+def routes_smoke(ctx):
+    return printer_slice(ctx, "smoke", module="MCRoutes", cfg="Routes.cfg")
+
+
 def routes_rnd(ctx):
     """the random slice through the four routes of C16 (MCRoutes)"""
     return printer_rnd(ctx, n=tier(ctx, 800, 8000), module="MCRoutes", cfg="Routes.cfg")
@@ -342,6 +346,9 @@ def c12(ctx):
     printer_slice(ctx, "smoke")
     printer_slice(ctx, tier(ctx, "qcls", "cls"))
     printer_rnd(ctx)
+    # what a type prints as depends on the registry AT THAT MOMENT, not on what it was when the printer in hand was
+    # made: registrations happen between prints in every behaviour of MCRegistry (the probes warm the pool)
+    registry_model(ctx)
     # model -> code: behaviours replayed as call histories, probes compared with a fresh process
     hists = pool_histories_from_tlc(ctx, tier(ctx, 300, 5000), 40)
     trace = ctx.work + "/poolh.ndjson"
@@ -446,6 +453,11 @@ def buffermem_model(ctx):
     """BufferMem: the buffer at the level of backing arrays, len/cap and aliasing (struct copies of the value-receiver
     accessors, strings aliasing the array after Take): refinement of the value-level Buffer + C13's aliasing clauses"""
     ctx.tlc_only("BufferMem", "BufferMem.cfg", workers=16, consts=dict(MaxOpsM=tier(ctx, 5, 7), MaxArr=tier(ctx, 18, 24)))
+    # the lending protocol of nested printers (F10): with the struct dropped when a panic crosses the nested printer -- the
+    # code before the repair -- the outer buffer no longer implements its value-level state
+    st = ctx.tlc_only("BufferMem", "BufferMem.cfg", workers=16, expect_ok=False, consts=dict(DefectM='"nested_abandon"', MaxOpsM=5, MaxArr=18))
+    ctx.control("BufferMem with the pre-repair lending protocol (nested_abandon) must violate the refinement invariant",
+                (not st["ok"]) and "InvRefines is violated" in st["text"])
     if ctx.tier == "thorough":
         for d in ("accessor_in_place", "take_keeps_array", "string_aliases"):
             st = ctx.tlc_only("BufferMem", "BufferMem.cfg", workers=16, expect_ok=False, consts=dict(DefectM='"%s"' % d))
